@@ -319,6 +319,46 @@ def accept_filter(run, exe, cands, name="accx"):
         out[ev["eco"]] = [t for t, ok in zip(ev["texts"], ev["ok"]) if ok]
     return out
 
+# letters whose case mappings are irregular (two lower-case letters in one fold orbit, a lower case of another length,
+# no case at all) next to their ASCII relatives and a letter that sorts between them
+UNI_GROUPS = [["s", "t", "\u017f", "S"],                       # long s: folds with s, lower-cases to itself
+              ["\u00b5", "\u00e9", "\u03bc", "\u039c"],          # micro sign / mu: one fold orbit, two lower-case letters
+              ["k", "l", "\u212a", "K"],                       # Kelvin sign lower-cases to k
+              ["i", "j", "\u0131", "\u0130"],                  # dotless i, dotted capital I (lower case of another length)
+              ["\u00df", "\u1e9e", "ss", "st"],                  # sharp s
+              ["9", "\u0660", "\uff11", "a"],                   # digits outside ASCII
+              ["\u01c4", "\u01c5", "\u01c6", "z"]]              # a title-case digraph
+def unicode_families(run, exe, acc, rnd, per_eco=4, size=5, name="uni"):
+    """B2, non-ASCII texts: in accepted members that contain an ASCII letter, replace that one character by each member of
+    a group of UNI_GROUPS (letters with irregular case mappings, their ASCII relatives and a letter that sorts between
+    them) and keep what the real parser accepts. Returns {eco: [family, ...]}; a family is the original plus the accepted
+    spellings of one group. Ecosystems whose grammars are ASCII only yield nothing."""
+    import re
+    cands = {}; fams = {}
+    for e in sorted(acc):
+        pool = [t for t in acc[e] if re.search(r"[A-Za-z]", t) and len(t) < 30 and t.isascii()]
+        fams[e] = []
+        # conventional shapes first (number, separator, word, optional number): the order laws are claimed on those
+        conv = re.compile(r"^[vV]?\d+(\.\d+)*[-._~+][A-Za-z]+([-._]?\d+)?$")
+        cand = rnd.sample(pool, min(len(pool), per_eco * 6))
+        cand = ([t for t in cand if conv.match(t)] + [t for t in cand if not conv.match(t)])[:per_eco * 2]
+        for k, t in enumerate(cand):
+            pos = rnd.choice([m.start() for m in re.finditer(r"[A-Za-z]", t)])
+            g = UNI_GROUPS[k % len(UNI_GROUPS)] if k >= 2 else UNI_GROUPS[k]     # the first two groups always
+            fams[e].append((t, [t[:pos] + u + t[pos + 1:] for u in g]))
+        cands[e] = [x for _, f in fams[e] for x in f]
+    ok = accept_filter(run, exe, cands, name=name)
+    out = {}
+    for e in fams:
+        oks = set(ok.get(e, [])); out[e] = []
+        for t, f in fams[e]:
+            keep = [x for x in f if x in oks]
+            if all(x.isascii() for x in keep): continue
+            # the original comes last and only fills up: a family is judged as a whole, and the group holds ASCII members
+            out[e].append(list(dict.fromkeys(keep + [t]))[:max(size - 1, len(keep))][:size])
+            if len(out[e]) >= per_eco: break
+    return out
+
 def part_of(eco, text):
     """the partition label of Universe.tla (Part): alpm versions with an explicit pkgrel - in go-univers' reading
     (Alpm!ASplit.hasRel) the digits after a final '-' - are only comparable among themselves, and versions without one among themselves; every other ecosystem has one class.
